@@ -5,11 +5,20 @@ close+open at arbitrary points, post-close operations, path refusals). DBMDict: 
 (the part that works on dbm.dumb, the only backend on this image); each shard is a subprocess under a watchdog
 because a second open of a live path blocks on the class-level lock.
 """
+import collections
 import os
 
 from vlib.common import fp, exc_site
 
 LEVEL = "exploration"
+
+
+class MissingDict(dict):
+    """A dict subclass that answers absent keys instead of raising (valid input to from_dict)."""
+
+    def __missing__(self, key):
+        return b"fallback"
+
 SHARD_TIMEOUT = {"quick": 240, "thorough": 1500}
 UNIVERSE = [b"k0", b"k1", b"key-two", b"\x00", b"", b"k5" * 20]
 
@@ -64,7 +73,17 @@ class Runner:
                 d = cls.create(path)
             else:
                 src = {k: rng.randbytes(rng.randint(0, 6)) for k in rng.sample(UNIVERSE, rng.randint(0, 5))}
-                self.trace.append(["from_dict", {k.hex(): v.hex() for k, v in src.items()}])
+                shape = rng.random()
+                if shape < 0.2:      # the source may be any dict: the persistent copy behaves like a plain dict
+                    src = collections.defaultdict(bytes, src)
+                    acc.count("from_dict_source.defaultdict")
+                elif shape < 0.3:
+                    src = collections.OrderedDict(src)
+                    acc.count("from_dict_source.OrderedDict")
+                elif shape < 0.4:
+                    src = MissingDict(src)
+                    acc.count("from_dict_source.__missing__")
+                self.trace.append(["from_dict", {k.hex(): v.hex() for k, v in src.items()}, type(src).__name__])
                 d = cls.from_dict(src, path)
                 model = dict(src)
                 # later mutation of the source must not leak into the persistent dict
@@ -363,6 +382,9 @@ def replay(case, acc, ctx):
                 d = cls.create(path)
             elif kind == "from_dict":
                 src = {bytes.fromhex(k): bytes.fromhex(v) for k, v in op[1].items()}
+                shape = op[2] if len(op) > 2 else "dict"
+                src = {"defaultdict": lambda x: collections.defaultdict(bytes, x), "OrderedDict": collections.OrderedDict,
+                       "MissingDict": MissingDict}.get(shape, dict)(src)
                 d = cls.from_dict(src, path)
                 model = dict(src)
                 src[b"added-later"] = b"x"
